@@ -75,6 +75,14 @@ CHECKS.update({
             "Bounded solver-checked: LayeredMapping laws over SYMBOLIC dict[int,int] layers (<=3 layers, <=2 keys each; written keys in a 4-value range) and symbolic keys/values; Structured _map/_flatten/_simplify/_update/_merge laws over 9 enumerated shapes with symbolic integer leaves; SimpleFormula insert/setitem/delitem sequences of length 2 with symbolic indices and terms from a pool (path tree exhausted per operation pair).",
             "Bounds as stated in evidence (layers/keys, shape menu, 2 operations, index range, pool size); CrossHair short-circuiting of contract-bearing callees is disabled so that every callee body is executed.",
             "DESIGN.md §3 C19"),
+    "C01": ("CH", "CrossHair 0.0.110 (z3): symbolic precedences / associativities for the shunting-yard engine (CH-sym, unbounded ints); symbolic indices into finite alphabets realised by explicit branching for formula streams (CH-enum: path tree exhausted = every stream within the bound), each stream parsed by the real parser and compared with an independent recursive-descent reading of grammar.md; native cross-validation; counterexamples replayed natively",
+            "Bounded: tokens_to_ast == precedence climbing for ALL integer precedences on 9 operator sequences (+ parentheses); sign-run collapsing on all operator strings of <=3 (5 thorough) characters; every stream of <=3 symbols over the 19-symbol alphabet for the default parser and <=2 for each of the other 15 parser configurations (thorough: <=4 over 16 symbols, 5 over 9 symbols, <=3 for the other configurations) gives accept/reject, nested shape and ordered term lists equal to the documented algebra (documented-silent constructs counted as DONTCARE); documented identities and specification forms over all coincidence patterns of {a,b,c}.",
+            "Reference reading of grammar.md is mine (oracle/wilkinson_ref.py), validated at run time against the repository's own FORMULA_TO_TERMS expectations; DONTCARE classes listed there; formulas longer than K tokens are outside the claim.",
+            "DESIGN.md §3 C01"),
+    "C14": ("CH", "CrossHair 0.0.110 (z3): tokenizer over symbolic strings of all of Unicode (CH-sym); streams / single-token edits / feature-flag subsets via symbolic indices realised by branching (CH-enum, path tree exhausted); native cross-validation; counterexamples replayed natively",
+            "Bounded: tokenize(s) returns or raises FormulaSyntaxError for every string of <=2 (3) code points; Formula.from_spec over every stream of <=2 symbols of a 31-symbol error alphabet and <=3 of a 16 (20)-symbol cut, and over every single-token replace/insert/delete edit of 10 (20) well-formed seeds, ends in a formula, a FormulaParsingError, or a SyntaxError only if an embedded Python fragment is invalid; flag monotonicity over 3-token streams x 8 flag subsets.",
+            "Termination = within the per-path timeout on every explored path; strings outside the bounds are outside the claim.",
+            "DESIGN.md §3 C14"),
 })
 
 NOT_APPLICABLE = {
